@@ -83,15 +83,28 @@ let parse_tx () =
 let mixed_modes (t : tx) : string option =
   List.fold_left (fun acc ((s, _), i) -> if string_of_name s = "@m" then Some (string_of_name i) else acc) None t.tx_vetoes
 
-let run_tx_any sch fuel st (t : tx) =
-  match mixed_modes t with
-  | None -> run_tx sch fuel st t
-  | Some ms ->
-      let mops = List.mapi (fun k o ->
-        let c = if 3 * k < String.length ms then ms.[3 * k] else 'b' in
-        let w = 3 * k + 1 < String.length ms && ms.[3 * k + 1] = 'w' in
-        { m_sys = (c = 's' || c = 'n' || c = 'u' || c = 'y' || (c <> 'x' && t.tx_sys)); m_swallow = w; m_op = o }) t.tx_ops in
-      run_mtx sch fuel st { mt_vetoes = t.tx_vetoes; mt_ops = mops; mt_precommit_fails = t.tx_precommit_fails }
+let mtx_of (t : tx) (ms : string) : mtx =
+  let mops = List.mapi (fun k o ->
+    let c = if 3 * k < String.length ms then ms.[3 * k] else 'b' in
+    let w = 3 * k + 1 < String.length ms && ms.[3 * k + 1] = 'w' in
+    { m_sys = (c = 's' || c = 'n' || c = 'u' || c = 'y' || (c <> 'x' && t.tx_sys)); m_swallow = w; m_op = o }) t.tx_ops in
+  { mt_vetoes = t.tx_vetoes; mt_ops = mops; mt_precommit_fails = t.tx_precommit_fails }
+
+(* C16 restore steps (Store/SystemRestore.v, harness store_c16w2.go): a pseudo transaction without operations that carries the
+   pseudo veto  @rs C <"k:mode">  = the database content becomes what it was after the first k steps of the history; the
+   mode (which API / which store objects) is not modelled: the content is all there is *)
+let restore_of (t : tx) : int option =
+  List.fold_left (fun acc ((s, _), i) ->
+    if string_of_name s = "@rs" then begin
+      let v = string_of_name i in
+      let ks = (match String.index_opt v ':' with Some p -> String.sub v 0 p | None -> v) in
+      Some (int_of_string ks)
+    end else acc) None t.tx_vetoes
+
+let hstep_of (t : tx) : hstep =
+  match restore_of t with
+  | Some k -> HRestore (nat_of_int k)
+  | None -> (match mixed_modes t with None -> HTx t | Some ms -> HMtx (mtx_of t ms))
 
 let fval_str = function
   | FAbsent -> "absent" | FNil -> "nil" | FStr s -> "s" ^ hex_of_bytes s | FBool b -> if b then "b1" else "b0"
@@ -209,11 +222,13 @@ let () =
       let ns = next_int () in
       let sch = repeat ns parse_store in
       let st = ref st_empty in
+      let trace = ref [st_empty] in   (* the states after 0, 1, 2, ... steps (Store/SystemRestore.v) *)
       let buf = Buffer.create 4096 in
       while peek () <> None do
         let t = parse_tx () in
-        let (((rs, committed), st'), evs) = run_tx_any sch fuel !st t in
+        let ((((rs, committed), st'), evs), trace') = hist_step sch fuel st_empty !trace (hstep_of t) in
         st := st';
+        trace := trace';
         Buffer.add_string buf "TX R";
         List.iter (fun r -> Buffer.add_char buf ' '; Buffer.add_string buf (kind_str r)) rs;
         Buffer.add_string buf (if committed then " COMMIT" else " ROLLBACK");
